@@ -9,6 +9,8 @@ CONSTANTS
   MaxCredit = 5
   MaxTick = 3
   Limit = 2
+  AAM = TRUE
+  WithSReconf = FALSE
   Defaults = FALSE
 SPECIFICATION Spec
 INVARIANT Emit
